@@ -38,3 +38,18 @@ package cemi
 //@   requires message != nil
 //@   ensures [consumed] err == nil ==> n <= uint(len(data))
 //@   assigns *message
+
+//@ spec validTU(u TransportUnit) bool = typeis(u, *AppData) || typeis(u, *ControlData)
+//@ spec validMsg(m Message) bool = m != nil && (typeis(m, *LDataReq) ==> validTU(m.(*LDataReq).Data)) && (typeis(m, *LDataCon) ==> validTU(m.(*LDataCon).Data)) && (typeis(m, *LDataInd) ==> validTU(m.(*LDataInd).Data))
+
+//@ func (ldata *LData) Size() (size uint)
+//@   requires validTU(ldata.Data)
+
+//@ func (ldata *LData) Pack(buffer []byte)
+//@   requires validTU(ldata.Data)
+
+//@ func Size(message Message) (size uint)
+//@   inline
+
+//@ func Pack(buffer []byte, message Message)
+//@   inline
